@@ -1047,7 +1047,6 @@ package consensus
 //@ func (*MidState).ApplyV2Transaction
 //@   prop C01 C07
 //@   asserts-only
-//@   requires @decoded-txn-has-resolutions forall j in 0..len(txn.FileContractResolutions) :: !isnil(txn.FileContractResolutions[j].Resolution)
 //@   at call:MidState.spendSiacoinElement#1 assert @spends-named-parent $arg1.ID == sci.Parent.ID && $arg1.SiacoinOutput == sci.Parent.SiacoinOutput && $arg1.MaturityHeight == sci.Parent.MaturityHeight && $arg1.StateElement.LeafIndex == sci.Parent.StateElement.LeafIndex && $arg2 == txn.ID()
 //@   at call:MidState.createSiacoinElement#1 assert @creates-listed-output $arg1 == txn.SiacoinOutputID(txn.ID(), i) && $arg2 == sco
 //@   at call:MidState.spendSiafundElement#1 assert @spends-named-parent $arg1.ID == sfi.Parent.ID && $arg1.SiafundOutput == sfi.Parent.SiafundOutput && $arg1.ClaimStart == sfi.Parent.ClaimStart && $arg1.StateElement.LeafIndex == sfi.Parent.StateElement.LeafIndex && $arg2 == txn.ID()
